@@ -164,7 +164,9 @@ theorem cfSign_flip (k : Nat) (hk : k < 8) :
 /-- **`cut_face`: the eight new chambers satisfy the commutation relations.**  If `cut_face`
     returns on a complete 3-dimensional D-set (valid chamber arguments), the result is complete
     with involutive operations, has 8 more chambers, keeps operations 0, 2, 3 of the old
-    chambers, and on every new chamber s0s2 = s2s0, s0s3 = s3s0 and s1s3 = s3s1. -/
+    chambers, and on every new chamber s0s2 = s2s0, s0s3 = s3s0 and s1s3 = s3s1.  Last conjunct:
+    the new edge joins the two cut corners (`s1 d1`, `s1 d2` are the first two new chambers, which
+    are 0-neighbours), so afterwards `walk(d1, [1, 0, 1]) = d2`. -/
 theorem cutFace_commutes {ds s : DSetData} (hv : ValidSet ds) (hdim : ds.dim = 3)
     {d1 d2 : Nat} (h11 : 1 ≤ d1) (h12 : d1 ≤ ds.size) (h21 : 1 ≤ d2) (h22 : d2 ≤ ds.size)
     (h : cutFace ds d1 d2 = .ok s) :
@@ -175,7 +177,8 @@ theorem cutFace_commutes {ds s : DSetData} (hv : ValidSet ds) (hdim : ds.dim = 3
       s.opU 3 (s.opU 1 c) = s.opU 1 (s.opU 3 c)) ∧
     (FarCommute ds → FarCommute s) ∧ (Loopless ds → Loopless s) ∧ (FarDiffer ds → FarDiffer s) ∧
     (∀ col, Colouring ds col → col d2 = !col d1 →
-      ∃ col', Colouring s col' ∧ ∀ x, x ≤ ds.size → col' x = col x) := by
+      ∃ col', Colouring s col' ∧ ∀ x, x ≤ ds.size → col' x = col x) ∧
+    (s.opU 1 d1 = ds.size + 1 ∧ s.opU 1 d2 = ds.size + 2 ∧ s.opU 0 (ds.size + 1) = ds.size + 2) := by
   unfold cutFace at h
   obtain ⟨g, hg, h⟩ := bind_ok h
   obtain ⟨o2, ho2, h⟩ := bind_ok h
@@ -320,7 +323,8 @@ theorem cutFace_commutes {ds s : DSetData} (hv : ValidSet ds) (hdim : ds.dim = 3
     · right
       simp only [not_or] at h8
       exact h8
-  refine ⟨f3.valid, s3, m3, B, hnewc, ?_, ?_, ?_, ?_⟩
+  refine ⟨f3.valid, s3, m3, B, hnewc, ?_, ?_, ?_, ?_,
+    ⟨by simpa using Z1' 0 (by omega), by simpa using Z1' 1 (by omega), by simpa [cfN0] using Z0 0 (by omega)⟩⟩
   rotate_left
   · -- loopless
     intro hl i v hi hv1 hv2
